@@ -49,6 +49,7 @@ PROPS = {
         domain="conc", module="Props.C10",
         theorems=["C10_handles_distinct", "C10_alive_from_return", "C10_delete_check_passes", "C10_delete_of_live_ok",
                   "C10_delete_recorded", "C10_final_state_sequential", "C10_final_state_refines",
+                  "C10_results_linearisable",
                   "C10_queue_interleaving", "C10_never_stuck", "C10_programs_in_order", "C10_after_any_history"],
         required="faithful",
         nontrivial="an enumerated schedule in which at least one compare-exchange failed and was retried",
